@@ -404,7 +404,7 @@ func parseRewrites(service string) (serviceName string, rewrite string, err erro
 var (
 	threshEx          = regexp.MustCompile(`high=([1-9]|[1-9][0-9]|100) low=([1-9]|[1-9][0-9]|100)\b`)
 	threshExR         = regexp.MustCompile(`low=([1-9]|[1-9][0-9]|100) high=([1-9]|[1-9][0-9]|100)\b`)
-	pathRegexp        = regexp.MustCompile("^" + `/[^\s{};$]*` + "$")
+	pathRegexp        = regexp.MustCompile("^" + `/[^\s{};$\\]*` + "$")
 	stickyCookieRegex = regexp.MustCompile("^" + `([^"$\\]|\\[^$])*` + "$")
 )
 
